@@ -401,7 +401,7 @@ class Sched:
             t0 = time.time()
             while self.current != k and not self.dead:
                 self.cv.wait(30)
-                if time.time() - t0 > 240:
+                if time.time() - t0 > 900:
                     self.dead = True
                     self.cv.notify_all()
 
